@@ -318,6 +318,9 @@ def answerModelOnly (name : String) (a : List String) : Option String :=
       some (showChk (fun r => match r with
         | none => "none"
         | some (k, sg, zm) => toString k ++ " " ++ toString zm ++ " " ++ sB sg) (forge p kind sk msg n))
+  | "iterstats", [set, sk, msg, n] => do
+      let p ← paramsOf set; let sk ← B sk; let msg ← B msg; let n ← Nn n
+      some (showChk strOfInts (do let c ← signCtx p msg sk; iterStats p c n 0 [0, 0, 0, 0, 0, 0, 0]))
   | "analyze", [set, sk, msg, sig] => do
       let p ← paramsOf set; let sk ← B sk; let msg ← B msg; let sig ← B sig
       some (showChk (fun (f : List String) => if f.isEmpty then "pass" else "fail:" ++ ",".intercalate f) (analyze p sk msg sig))
